@@ -2,22 +2,22 @@
 """Regenerates MANIFEST.json from the table below (kept next to the checks so the two cannot drift)."""
 import json
 CLAIMED = {
- 'C12': ('reference rewrite under row/column insertion (stringify_reference, all four $ combinations, any context cell, same/other sheet) equals the insertion map on cells, off-grid => #REF!; decided by z3 over the MIR for every in-grid coordinate, position and count',
-         'outside: cell content/style moving via move_cell, defined names, spills, recomputed values, column descriptors; oracle trusts the same printer with no edit to render the expected coordinates'),
- 'C13': ('reference rewrite under row/column deletion: deleted band => #REF!, after => shifted, before => unchanged; every in-grid coordinate, position, count',
-         'outside: cell content moving, recomputed values, descriptors/rows/links of Model::delete_*'),
- 'C14': ('insert k lines at p then delete them is the identity on every conditional-format coordinate not pushed off the grid (displace_cf_row/col, any p, k)',
-         'outside: cell content, formula text, computed values, column/row descriptors, links; only the CF displacement kernel is composed'),
- 'C15': ('single row/column move rewrites references by the move permutation (stringify_reference RowMove/ColumnMove); a block move as the chain of single moves equals the block permutation on CF coordinates (block <=2 quick, <=3 thorough, any offset)',
-         'outside: cell content re-entry, array-formula split checks, ranges, the order of the chain is copied from move_rows_action/move_columns_action into the harness'),
+ 'C12': ('(a) one reference: stringify_reference under row/column insertion (all four $ combinations, any in-grid context cell/target/position/count, same or other sheet) equals the insertion map on cells, off-grid => #REF!; (b) ranges: the tree printer to_string_displaced on Node::RangeKind - both corners follow the map (interior insertion grows the range), whole-column/whole-row ranges stay, other-sheet edits leave it alone (coordinates <=120 rows x 30 columns quick, whole grid thorough); (c) the real Model::insert_rows/insert_columns on a cell-free sheet: column descriptors, row records and hyperlinks land on the shifted line (<=2 descriptors/records, 1 link, any position/count)',
+         'outside: cell content/value type/style moving through move_cell (text re-entry via set_user_input), CSE arrays, defined names, spills, recomputed values, the parser that produced the node; oracle (a)/(b) trusts the same corner printer with no edit to render the expected coordinates'),
+ 'C13': ('(a) one reference under row/column deletion: deleted band => #REF!, after => shifted, before => unchanged; (b) ranges through to_string_displaced: each corner by the deletion map, corner on a deleted line => #REF!, whole-column/row ranges untouched; (c) real Model::delete_rows/delete_columns on cell-free sheets: descriptors (cases A-F), row records and links outside the band keep their attributes at the shifted line, links inside the band are dropped',
+         'outside: cell content moving (move_cell re-entry, locale), recomputed values, defined names'),
+ 'C14': ('(a) displace_cf_row/col: insert k at p then delete k at p is the identity on every coordinate not pushed off the grid; (b) real Model::insert_columns;delete_columns and insert_rows;delete_rows on cell-free sheets: every column descriptor / row record read at a symbolic probe and the hyperlink map are unchanged, descriptors stay well-formed',
+         'outside: cell content, value types, formula text, computed values (all go through text re-entry and the parser)'),
+ 'C15': ('(a) single row/column move rewrites references by the move permutation (stringify_reference RowMove/ColumnMove, whole grid); (b) chain of single moves on CF coordinates = block permutation (block <=2 quick / <=3 thorough); (c) real Model::move_rows_action / move_columns_action on cell-free sheets: row records, observable column attributes (width when shown, hidden, style) and hyperlinks land at the block-permuted line (block <=3 rows / <=2 columns, |offset| <=2 quick; <=3,<=3 thorough)',
+         'outside: cell content re-entry, array-formula split checks (can_move_*), ranges under moves, values; column widths are the concrete values 8/13/21/34 (exact under the x9,/9 pixel conversion the move performs)'),
  'C22': ('column letters <-> numbers bijective: one symbolic i32 over all values, every ASCII string of length 0..=4',
          'outside: A1/R1C1 print->parse of whole references, sheet-name quoting vs the lexer, non-ASCII'),
- 'C27': ('column descriptors stay sorted/disjoint/in-grid and row records stay unique/in-grid after each Worksheet attribute setter from an arbitrary well-formed layout (inductive step)',
-         'outside: sheet names/ids, cell indices, spills, defined names, structural edits'),
- 'C29': ('frame + effect conditions of set_column_hidden/style/width, delete_column_style, set_row_hidden/style/height at a symbolic probe column/row from an arbitrary well-formed layout (<=2 descriptors / <=2 row records)',
-         'outside: exact float value of the width/height read back (x/9*9 round trip), Model-level wrappers'),
- 'C33': ('conditional-format coordinates move by exactly the insertion/deletion/move maps stated for cells (displace_cf_row/col), any i32 in the grid, any sheet ids',
-         'outside: links (displace_links closures need a Model), CF rule formulas, sqref strings, clear/undo, cut/paste'),
+ 'C27': ('column descriptors stay sorted and disjoint (min<=max) and row records unique after one Model-level structural edit (insert/delete any position and count, block move) and after each Worksheet attribute setter (ids C27.* inside the C29 harnesses), from an arbitrary well-formed in-grid layout (inductive step, <=2 descriptors/records)',
+         'outside: sheet names/ids, cells inside the grid, style/shared-string/formula indices, spill anchors, defined names; descriptors are not required to stay inside the grid (the property does not say so)'),
+ 'C29': ('frame + effect conditions of set_column_hidden/style/width, delete_column_style, set_row_hidden/style/height at a symbolic probe column/row from an arbitrary well-formed layout (<=2 descriptors / <=2 row records): exactly the targeted attribute of exactly the targeted line changes; width/height kept by hide/unhide/style',
+         'outside: exact float value of a width read back through x/9*9 (setters that do this arithmetic run on the concrete widths 8/13/21/34), Model-level wrappers (sheet lookup)'),
+ 'C33': ('(a) conditional-format coordinates move by exactly the insertion/deletion/move maps stated for cells (displace_cf_row/col), any in-grid i32, any sheet ids; (b) hyperlinks: the real Model::insert_*/delete_*/move_*_action on a sheet with two links at symbolic cells - each link key moves by the same map, links in a deleted band are dropped, nothing else appears',
+         'outside: CF rule formulas (parser), sqref strings, clear-removes-link and its undo, cut/paste orchestration'),
 }
 NA = {
  'C01': 'not claimed: the UserModel step harnesses (op; undo from a symbolic cell-free workbook) designed in DESIGN.md 5 were not built; Model construction (parser, locale tables behind OnceLock+bitcode) is not encodable and the planned intercept was not implemented',
